@@ -98,6 +98,8 @@ def linearise(e, P, out, coef, w):
                     y = _strip_round_up(x, P)
                     if y is not None:
                         linearise(y, P, out, coef, w)
+                        if _is_page_multiple(y, P, w):
+                            return          # rounding up what is already a multiple of the page size adds nothing
                         key = ("up", _nf(y, w))
                         out.slacks[key] = out.slacks.get(key, 0) + coef
                     else:
@@ -126,6 +128,27 @@ def linearise(e, P, out, coef, w):
         out.add_atom(e, coef)
         return
     out.add_atom(e, coef)
+
+
+def _is_page_multiple(y, P, w):
+    """Is y, as an affine form, exactly one term of coefficient 1 that is itself `.. & !(P-1)` (plus multiples of P)?"""
+    terms, c = affine(y, w)
+    rest = {t: k for t, k in terms.items() if t != P}
+    # x + (P - x % P) % P  (how next_multiple_of is modelled): a multiple of P
+    for t, k in rest.items():
+        if isinstance(t, E) and t.op == "rem" and t.args[1] == P and to_signed(k, w) == 1 and t.args[0].op == "sub" and t.args[0].args[0] == P \
+                and t.args[0].args[1].op == "rem" and t.args[0].args[1].args[1] == P:
+            x_ = t.args[0].args[1].args[0]
+            tx, cx = affine(x_, w)
+            others = {a: b for a, b in rest.items() if a != t}
+            if {a: to_signed(b, w) for a, b in others.items()} == {a: to_signed(b, w) for a, b in tx.items() if a != P} and to_signed(cx, w) == to_signed(c, w):
+                return True
+    if to_signed(c, w) != 0 or len(rest) != 1:
+        return False
+    (t, k), = rest.items()
+    if to_signed(k, w) != 1 or not isinstance(t, E) or t.op != "and":
+        return False
+    return any(_is_page_mask(m, P) for m in t.args)
 
 
 def _nf(x, w):
